@@ -1375,6 +1375,9 @@ func runC20(run *Run, replay string) Spec {
 				if k%10 == 2 {
 					c20EntityResolverCheck(run, e, r)
 				}
+				if k%5 == 1 {
+					c20ArgumentsCheck(run, e, r)
+				}
 				run.SetCurrent(w, c)
 				c20Check(run, e, c)
 				for f := range feats {
